@@ -62,32 +62,114 @@ static inline size_t uf_prd(UF_PARAMS, size_t i)
 #define UF_RK(i) uf_rank[FSL_IDX1((i), uf_rn)]
 
 /* ------------------------------------------------------------------ std::vector<size_t> operations
- * trusted models on (buffer, &length, ghost capacity); contents clauses are stated for the ghost elements */
-void fsl_vsz_resize(size_t *d, size_t *len, size_t cap, size_t n, size_t val)
+ * trusted models on (buffer, &length, ghost capacity); contents clauses are stated for two ghost indices.
+ * One instance per ghost universe: (UG, UG2) basins / union-find elements, (SP1, SP2) positions in m_edges_indices. */
 #ifdef FSL_CBMC
-    __CPROVER_requires(n <= cap && UG < cap && UG2 < cap) /* ghost elements live in the universe [0, cap) */
-    __CPROVER_assigns(*len, __CPROVER_object_whole(d))
-    __CPROVER_ensures(*len == n)
-    __CPROVER_ensures(UG < n ==> (d[UG] == __CPROVER_old(d[UG]) || UG >= __CPROVER_old(*len)))
-    __CPROVER_ensures((UG < n && UG >= __CPROVER_old(*len)) ==> d[UG] == val)
-    __CPROVER_ensures(UG2 < n ==> (d[UG2] == __CPROVER_old(d[UG2]) || UG2 >= __CPROVER_old(*len)))
-    __CPROVER_ensures((UG2 < n && UG2 >= __CPROVER_old(*len)) ==> d[UG2] == val)
+#define FSL_VSZ_MODEL(sfx, g1, g2)                                                                   \
+    void fsl_vsz_resize##sfx(size_t *d, size_t *len, size_t cap, size_t n, size_t val)               \
+        __CPROVER_requires(n <= cap && g1 < cap && g2 < cap) /* ghost indices live in [0, cap) */    \
+        __CPROVER_assigns(*len, __CPROVER_object_whole(d))                                           \
+        __CPROVER_ensures(*len == n)                                                                 \
+        __CPROVER_ensures(g1 < n ==> (d[g1] == __CPROVER_old(d[g1]) || g1 >= __CPROVER_old(*len)))   \
+        __CPROVER_ensures((g1 < n && g1 >= __CPROVER_old(*len)) ==> d[g1] == val)                    \
+        __CPROVER_ensures(g2 < n ==> (d[g2] == __CPROVER_old(d[g2]) || g2 >= __CPROVER_old(*len)))   \
+        __CPROVER_ensures((g2 < n && g2 >= __CPROVER_old(*len)) ==> d[g2] == val);                   \
+    /* std::iota(v.begin(), v.end(), v0) */                                                          \
+    void fsl_vsz_iota##sfx(size_t *d, size_t len, size_t v0)                                         \
+        __CPROVER_assigns(__CPROVER_object_whole(d))                                                 \
+        __CPROVER_ensures(g1 < len ==> d[g1] == v0 + g1)                                             \
+        __CPROVER_ensures(g2 < len ==> d[g2] == v0 + g2);
+#else
+#define FSL_VSZ_MODEL(sfx, g1, g2)                                                     \
+    void fsl_vsz_resize##sfx(size_t *d, size_t *len, size_t cap, size_t n, size_t val); \
+    void fsl_vsz_iota##sfx(size_t *d, size_t len, size_t v0);
 #endif
-    ;
-/* std::iota(v.begin(), v.end(), v0) */
-void fsl_vsz_iota(size_t *d, size_t len, size_t v0)
-#ifdef FSL_CBMC
-    __CPROVER_assigns(__CPROVER_object_whole(d))
-    __CPROVER_ensures(UG < len ==> d[UG] == v0 + UG)
-    __CPROVER_ensures(UG2 < len ==> d[UG2] == v0 + UG2)
-#endif
-    ;
+FSL_VSZ_MODEL(, UG, UG2)
+size_t SP1, SP2; /* ghost positions in a sequence of edge indices */
+FSL_VSZ_MODEL(_k, SP1, SP2)
 #define FSL_VSZ_PUSH(d, len, cap, x)                                                        \
-    do                                                                                      \
+    (                                                                                      \
     {                                                                                       \
         __CPROVER_assert((len) < (cap), "vector model: push_back within ghost capacity");   \
         (d)[(len)] = (x);                                                                   \
         (len) = (len) + 1;                                                                  \
-    } while (0)
+    })
+
+
+/* ------------------------------------------------------------------ basin_graph (basin_graph.hpp:98-123, 207-225) */
+struct fsl_edge
+{
+    size_t link[2];
+    size_t pass[2];
+    double pass_elevation;
+    double pass_length;
+};
+#define FSL_EDGE_BYTES 48
+
+/* lengths / ghost capacities of the member vectors (globals: modified by resize / clear / push_back) */
+size_t m_edges_n, m_edges_cap;
+size_t m_tree_n, m_tree_cap;
+size_t m_edges_indices_n, m_edges_indices_cap;
+
+#define FSL_RESERVE(x) ((void) (x)) /* std::vector::reserve: a capacity hint, no observable effect in the model */
+#define EDGE_W(e) (m_edges[(e)].pass_elevation)
+/* input well-formedness of an edge: both endpoints are basin ids (producer: connect_basins + compute_basins, C19) */
+#define EDGE_WF(e, nb) (m_edges[(e)].link[0] < (nb) && m_edges[(e)].link[1] < (nb))
+
+/* ghost edge and its position in the sorted sequence */
+size_t KGE, KPOS;
+
+/* std::sort(m_edges_indices.begin(), m_edges_indices.end(), <comparator lambda>)  -- TRUSTED: std::sort sorts.
+ * Input: the identity sequence (what std::iota produced), stated at the ghost positions.  Output: a permutation of it
+ * (every entry an edge index, pairwise distinct, ghost edge KGE sits at ghost position KPOS) that is sorted by the
+ * comparator: no later element compares less than an earlier one.  The comparator is `pass_elevation <`, which the group
+ * basin.kruskal.cmp proves to be a strict weak order on non-NaN weights from the extracted lambda. */
+void fsl_sort_edges(size_t *idx, size_t n, const struct fsl_edge *m_edges, size_t nedges)
+#ifdef FSL_CBMC
+    __CPROVER_requires(n == nedges)
+    __CPROVER_requires((SP1 < n ==> idx[SP1] == SP1) && (SP2 < n ==> idx[SP2] == SP2))
+    __CPROVER_assigns(__CPROVER_object_whole(idx), KPOS)
+    __CPROVER_ensures((SP1 < n ==> idx[SP1] < nedges) && (SP2 < n ==> idx[SP2] < nedges))
+    __CPROVER_ensures((SP1 < n && SP2 < n && SP1 != SP2) ==> idx[SP1] != idx[SP2])
+    __CPROVER_ensures((SP1 < SP2 && SP2 < n) ==> !(EDGE_W(idx[SP2]) < EDGE_W(idx[SP1])))
+    __CPROVER_ensures(KGE < nedges ==> (KPOS < n && idx[KPOS] == KGE))
+#endif
+    ;
+
+
+/* ------------------------------------------------------------------ basin_graph::connect_basins scratch state */
+size_t m_root;
+size_t m_edge_positions_n, m_edge_positions_cap;
+size_t m_edge_positions_tmp_n, m_edge_positions_tmp_cap;
+/* locals of connect_basins that live across iterations of its node loop (shared with the outlined loop bodies) */
+size_t ibasin, current_basin;
+_Bool is_inner_basin;
+size_t GB; /* ghost basin */
+
+/* std::vector growth in a model without reallocation: `length < ghost capacity` is a MODEL ARTIFACT (the real push_back
+ * reallocates), stated as a precondition instance, never as a property of the code */
+#define FSL_EDGES_PUSH(e)                    \
+    (                                       \
+    {                                        \
+        FSL_PRE(m_edges_n < m_edges_cap);    \
+        m_edges[m_edges_n] = (e);            \
+        m_edges_n = m_edges_n + 1;           \
+    })
+/* m_edge_positions_tmp.push_back(x); ghost: CB_TSLOT[x] remembers the slot at which basin x was pushed last */
+#define FSL_TMP_PUSH(x)                                                       \
+    (                                                                        \
+    {                                                                         \
+        FSL_PRE(m_edge_positions_tmp_n < m_edge_positions_tmp_cap);           \
+        CB_TSLOT[FSL_IDX1((x), nbasins_)] = m_edge_positions_tmp_n;           \
+        m_edge_positions_tmp[m_edge_positions_tmp_n] = (x);                   \
+        m_edge_positions_tmp_n = m_edge_positions_tmp_n + 1;                  \
+    })
+#ifdef FSL_CBMC
+FSL_VSZ_MODEL(_b, GB, GB)
+/* std::fill(v.begin(), v.end(), val) */
+void fsl_vsz_fill_b(size_t *d, size_t len, size_t val)
+    __CPROVER_assigns(__CPROVER_object_whole(d))
+    __CPROVER_ensures(GB < len ==> d[GB] == val);
+#endif
 
 #endif
